@@ -107,8 +107,9 @@ CLAIMS = {
         "design": "DESIGN.md section 4 C19",
     },
     "C20": {
-        "text": "Bounded symbolic check: BaseInterpreter._matching_descriptors on 2-3 symbolic (arbitrary unicode) keys and a symbolic event type equals the reference ordering exact > partial by decreasing prefix > '*', engine-internal events exact only; and send() of a symbolic event type on a two-level machine with symbolic guard outcomes and null entries fires exactly the reference nominee on both engines.",
-        "note": "Trusts CrossHair/z3 and the reference descriptor_ref/_select_ref. String lengths bounded (L in evidence); a duck-typed linear-scan mapping replaces dict for symbolic keys; the engine-level machine is one fixed two-level shape with 7 null-entry variants.",
+        "text": "Bounded symbolic check: BaseInterpreter._matching_descriptors on 2-3 symbolic (arbitrary unicode) keys and a symbolic event type equals the reference ordering exact > partial by decreasing prefix > '*', engine-internal events exact only; and send() of a symbolic event type on a two-level machine with symbolic guard outcomes and null entries fires exactly the reference nominee on both engines. descriptor_smt: the AST of _matching_descriptors (read from the working tree at run time) is executed on z3 string terms (vf/ast2smt.py, z3 with the cvc5 binary as second solver); on every path the returned list is checked against the matching clause written as a formula: holds for keys and event types of ANY length, for 2 and for 3 keys.",
+        "note": "Trusts CrossHair/z3 and the reference descriptor_ref/_select_ref; for descriptor_smt additionally the AST interpreter vf/ast2smt.py (its models are replayed on the real function with a real dict) and cvc5 1.0.3 where z3 answers unknown. CrossHair items: string lengths bounded (L in evidence); a duck-typed linear-scan mapping replaces dict for symbolic keys; the engine-level machine is one fixed two-level shape with 7 null-entry variants. descriptor_smt: bound = number of keys (<= 3); a rewrite of the function outside the interpreter's Python subset makes the item INCONCLUSIVE, not a verdict.",
+        "tech": TECH + "; obligation descriptor_smt: AST-to-SMT symbolic execution of the function on unbounded z3 strings, one solver query per branch and per return (z3 5.1, cvc5 1.0.3 on z3's unknowns), models replayed natively",
         "design": "DESIGN.md section 4 C20",
     },
 }
@@ -134,7 +135,7 @@ def main() -> int:
             "engine": "crosshair-z3",
             "level_claimed": {"category": "other", "text": c["text"], "design_ref": c["design"]},
             "level_note": c["note"],
-            "technique": TECH,
+            "technique": c.get("tech", TECH),
         })
     man = {
         "version": 1,
@@ -151,6 +152,11 @@ def main() -> int:
             "path": "/verif/vf/engine.py",
             "serves_properties": [c["property_id"] for c in checks],
             "kind_free_text": "CrossHair 0.0.110 symbolic execution of /repo's working tree through its Python API, z3 5.1 back end; runner shards obligations over 16 processes; counterexamples replayed natively (vf/replay.py)",
+        }, {
+            "name": "ast2smt",
+            "path": "/verif/vf/ast2smt.py",
+            "serves_properties": ["C20"],
+            "kind_free_text": "symbolic interpreter from the Python AST of a leaf kernel (inspect.getsource on /repo's working tree) to z3 terms over unbounded strings; DFS over solver-decided branches; z3 5.1 Python API first, cvc5 1.0.3 binary on the same SMT-LIB text when z3 answers unknown; models replayed natively",
         }],
         "checks": checks,
         "notes": "Exit codes of bin/check: 0 = nothing refuted beyond known findings (KNOWN-FINDING lines), 1 = reproducing counterexample (VIOLATION line), 3 = harness error. Genuine defects repaired in /repo by 'fix:' commits are listed in known_findings.json ('fixed').",
